@@ -66,7 +66,7 @@ func main() {
 			"x END_STREAM on {last DATA, empty DATA, trailers} x {client-to-server, server-to-client}. SAMPLED beyond that: all 1-cut sets (n<=400) and all 2-cut sets " +
 			"(n<=48 quick / n<=160 thorough) of a fixed list of compressed streams, one-byte dribble, PRNG message sequences (0..6 messages, sizes {0,1,5,100,70000}) " +
 			"with PRNG cut sets that always cut inside a prefix and at message boundaries or fixed-size frames, both directions interleaved, processor factories returning a processor for both / only the request / only the response direction, " +
-			"messages of 1.1-4.2 MB followed by small ones under fixed-size, aligned or PRNG framing (large-* batches), streams that are not gRPC (14 content types incl. gRPC-Web and near-miss strings; " +
+			"messages of 1.1-4.2 MB or compressed messages inflating to 4-17 MiB followed by small ones under fixed-size, aligned or PRNG framing (large-* batches), streams that are not gRPC (14 content types incl. gRPC-Web and near-miss strings; " +
 			"payloads incl. gRPC-Web/0x80 frames, base64 text, 0x01 frames, bogus lengths) plus content types of unsettled gRPC-ness (byte identity only), and a sample through the real " +
 			"h2 relay (h2.Config.Proxy between a harness h2 client on an in-memory pipe and a harness TLS h2 server). " +
 			"A class is (encoding, flag pattern none/all/mixed, message count 0/1/2/3+, cut class, END_STREAM placement, direction, driver, processor directions, has a message > 1 MiB) as observed at the sink.",
@@ -817,8 +817,11 @@ func judgeGRPC(v *verdicts, c *caseSpec, d int, o *obs, via string) {
 		}
 		size := ""
 		for _, p := range rd.Payloads {
-			if len(p) > 1<<20 {
+			if len(p) > 1<<20 && size == "" {
 				size = "|has>1MiB"
+			}
+			if len(p) > 4<<20 {
+				size = "|has>4MiB"
 			}
 		}
 		v.r.Class(fmt.Sprintf("%s|enc=%s|flags=%s|msgs=%s|cut=%s|eos-in=%s|eos-out=%s|%s|%s%s", via, encSeen, flagClass(flags), countClass(len(fr)),
@@ -1399,7 +1402,19 @@ func largeCase(r *vh.Run, idx int) *caseSpec {
 	for k := rng.Intn(3); k > 0; k-- {
 		f.Msgs = append(f.Msgs, grpcx.Msg{Size: small[rng.Intn(5)], Flag: rng.Intn(2) == 0})
 	}
-	f.Msgs = append(f.Msgs, grpcx.Msg{Size: bigs[rng.Intn(len(bigs))], Flag: rng.Intn(2) == 0})
+	if rng.Intn(3) == 0 {
+		// a message that is small on the wire and inflates to 4-9 MiB (thorough: 17 MiB)
+		// when decompressed: gRPC's default receive limit is 4 MiB but larger limits
+		// are configured routinely, and the statement does not bound message size
+		inflated := []int{4<<20 + 1000, 5 << 20, 9 << 20}
+		if r.Thorough() {
+			inflated = append(inflated, 17<<20)
+		}
+		f.Enc = []string{"gzip", "deflate", "snappy"}[rng.Intn(3)]
+		f.Msgs = append(f.Msgs, grpcx.Msg{Size: inflated[rng.Intn(len(inflated))], Flag: true, Fill: "rep"})
+	} else {
+		f.Msgs = append(f.Msgs, grpcx.Msg{Size: bigs[rng.Intn(len(bigs))], Flag: rng.Intn(2) == 0})
+	}
 	for k := 1 + rng.Intn(3); k > 0; k-- {
 		f.Msgs = append(f.Msgs, grpcx.Msg{Size: small[rng.Intn(len(small))], Flag: rng.Intn(2) == 0})
 	}
